@@ -186,6 +186,21 @@ inline bool plan_effect(Model const& M, ModelTraits const& T, Op const& op, Effe
 			break;
 		}
 		case O_CTOR_MOVE: case O_CTOR_MOVE_ALLOC: {
+			if(op.kind == O_CTOR_MOVE && op.var == 1) {  // static_array(array&&): from a resizable array on arena op.ar holding op.v, op.v+1, ...
+				if(!T.static_arrays || op.nx != D || D == 0) return false;
+				for(int i = 0; i < D; ++i)
+					if(op.x[i] < 1 || op.x[i] > 4) return false;
+				set_dims(a, D, op.x);
+				a.v.resize(static_cast<std::size_t>(a.count()));
+				for(std::size_t i = 0; i < a.v.size(); ++i) a.v[i] = op.v + static_cast<i64>(i);
+				a.arena = 0;  // the constructor has no allocator argument: a default-constructed allocator
+				e.elems = a.count();
+				var("from-resizable");
+				if(op.ar != 0) var("other-arena");
+				else e.expect_no_alloc = e.expect_no_elem_copies = true;  // equal allocators: the storage is adopted
+				break;
+			}
+			if(op.var != 0) return false;
 			if(T.static_arrays && op.kind != O_CTOR_MOVE) return false;
 			if(!slot_ok(D, op.b, T) || op.b == op.a || !M.at(D, op.b).alive) return false;
 			MArr const& b = M.at(D, op.b);
